@@ -188,6 +188,7 @@ func c11CheckClean(name string, ents []sstEntry, dir string, res *fw.Result, uni
 	if len(ents) > 1 {
 		res.Nontrivial++
 	}
+	fw.Progress("sst-clean shape=" + name)
 	got, err := readSSTForward(r, len(ents)*3+10)
 	if err != nil {
 		viol("iterate-error", err.Error())
@@ -199,6 +200,28 @@ func c11CheckClean(name string, ents []sstEntry, dir string, res *fw.Result, uni
 			if !sameEntry(got[i], ents[i]) {
 				viol("iterate-content", fmt.Sprintf("entry %d: got %v, written %v", i, got[i], ents[i]))
 				break
+			}
+		}
+	}
+	// forward iteration driven by Next alone: a fresh iterator positions itself on the first call
+	{
+		it := r.NewIterator()
+		var got2 []sstEntry
+		for it.Next() && len(got2) <= len(ents)*3+10 {
+			e := sstEntry{Key: append([]byte{}, it.Key()...), Seq: it.SequenceNumber(), Tomb: it.IsTombstone()}
+			if !e.Tomb {
+				e.Val = append([]byte{}, it.Value()...)
+			}
+			got2 = append(got2, e)
+		}
+		if len(got2) != len(ents) {
+			viol("next-only-count", fmt.Sprintf("iteration by Next alone yields %d entries, %d written; got %v", len(got2), len(ents), head2(got2, 6)))
+		} else {
+			for i := range ents {
+				if !sameEntry(got2[i], ents[i]) {
+					viol("next-only-content", fmt.Sprintf("entry %d: got %v, written %v", i, got2[i], ents[i]))
+					break
+				}
 			}
 		}
 	}
@@ -466,7 +489,7 @@ func init() {
 	fw.Register(&fw.Check{
 		ID:    "C11",
 		Level: "exploration",
-		Rule: "entry sets: n in {1,2,15,16,17,18,31,32,33,40} x {plain, alternating / restart-edge tombstones, empty values}, all tombstone masks for n<=4 (6 thorough), prefix/binary keys, long shared prefixes, 2/3(/5)-block tables; for each: forward iteration, Seek to every key / successor / predecessor / both ends followed by iteration to the end, SeekToLast, Get of every key and every non-key target. " +
+		Rule: "entry sets: n in {1,2,15,16,17,18,31,32,33,40} x {plain, alternating / restart-edge tombstones, empty values}, all tombstone masks for n<=4 (6 thorough), prefix/binary keys, long shared prefixes, 2/3(/5)-block tables; for each: forward iteration (from SeekToFirst, and by Next alone on a fresh iterator), Seek to every key / successor / predecessor / both ends followed by iteration to the end, SeekToLast, Get of every key and every non-key target. " +
 			"Damage: every byte (files <= 8 KiB; head, 251-stride and last 6 KiB for larger) x {^0x01, ^0x80, 0xFF}: open+iterate+get must fail or yield only written entries. Non-trivial = tables with >1 entry / damaged opens that were evaluated to the end",
 		Assumptions: []string{"key/value sizes up to 20 KiB values and 302-byte keys; single-byte damage only"},
 		Units: func(tier string) []string {
